@@ -159,6 +159,8 @@ const (
 	FormDownload
 	FormPublic
 	NForms
+	// AcceptGzip, or-ed onto a form in the form list handed to Dump: send that media GET with "Accept-Encoding: gzip".
+	AcceptGzip = 8
 )
 
 var FormNames = [NForms]string{"json?alt=media", "download?alt=media", "public"}
@@ -327,6 +329,35 @@ func (c *Client) GetMedia(form int, b, n string) *Resp {
 	return c.Do("GET", MediaTarget(form, b, n), nil, nil)
 }
 
+// GetMediaAE is GetMedia with or without "Accept-Encoding: gzip". The transport never adds that header by itself and
+// never decompresses a response, so the body is what the server sent and Content-Encoding says how it is encoded.
+func (c *Client) GetMediaAE(form int, b, n string, acceptGzip bool) *Resp {
+	var hdr [][2]string
+	if acceptGzip {
+		hdr = [][2]string{{"Accept-Encoding", "gzip"}}
+		c.count("media_gets_accepting_gzip")
+	} else {
+		c.count("media_gets_not_accepting_gzip")
+	}
+	return c.Do("GET", MediaTarget(form&^AcceptGzip, b, n), hdr, nil)
+}
+
+// Gunzip decodes a complete gzip stream (all members); ok=false if b is not one.
+func Gunzip(b []byte) (plain []byte, ok bool) {
+	zr, err := gzip.NewReader(bytes.NewReader(b))
+	if err != nil {
+		return nil, false
+	}
+	plain, err = io.ReadAll(zr)
+	if err != nil || zr.Close() != nil {
+		return nil, false
+	}
+	if plain == nil {
+		plain = []byte{}
+	}
+	return plain, true
+}
+
 func (c *Client) List(b string, q [][2]string) *Resp {
 	return c.Do("GET", ListPath(b)+Query(q), nil, nil)
 }
@@ -433,12 +464,26 @@ func (c *Client) ListAll(b, prefix, delim string, maxResults, maxPages int) (pag
 
 // MediaView is what one media GET showed.
 type MediaView struct {
-	Fetched bool
-	Status  int
-	Body    []byte
-	Gen     string // X-Goog-Generation
-	Metagen string // X-Goog-Metageneration
-	Err     string
+	Fetched    bool
+	Form       int
+	AcceptGzip bool // the request carried "Accept-Encoding: gzip"
+	Status     int
+	Body       []byte // as sent by the server (never decompressed by the client)
+	Encoding   string // Content-Encoding of the response
+	Gen        string // X-Goog-Generation
+	Metagen    string // X-Goog-Metageneration
+	Err        string
+}
+
+// Entity is the response body with the response's own Content-Encoding undone: what the client ends up with,
+// whichever encodings it said it accepts.
+func (mv *MediaView) Entity() []byte {
+	if strings.EqualFold(mv.Encoding, "gzip") {
+		if plain, ok := Gunzip(mv.Body); ok {
+			return plain
+		}
+	}
+	return mv.Body
 }
 
 // ObjView is everything observable about one name.
@@ -447,7 +492,7 @@ type ObjView struct {
 	MetaRaw    string
 	Meta       map[string]any
 	MetaErr    string
-	Media      [NForms]MediaView
+	Media      []MediaView // in request order
 }
 
 // BucketView is everything observable about one bucket.
@@ -476,7 +521,8 @@ type StoreDump struct {
 
 // Dump reads the whole observable store: every bucket's existence and full (paginated) listing, and for every given
 // name (live names plus decoys) the metadata and the media through the forms selected by forms(bucket, name)
-// (nil: all applicable forms).
+// (nil: all applicable forms); a form or-ed with AcceptGzip is requested with "Accept-Encoding: gzip", the same form
+// may be listed with and without it.
 func (c *Client) Dump(names map[string][]string, forms func(b, n string) []int) *StoreDump {
 	d := &StoreDump{Buckets: map[string]*BucketView{}}
 	for b, ns := range names {
@@ -539,21 +585,23 @@ func (c *Client) Dump(names map[string][]string, forms func(b, n string) []int) 
 			} else {
 				fs = []int{FormJSON, FormDownload, FormPublic}
 			}
-			for _, f := range fs {
+			for _, fa := range fs {
+				f, ae := fa&^AcceptGzip, fa&AcceptGzip != 0
 				if f == FormPublic && !PublicOK(n) {
 					continue
 				}
-				r := c.GetMedia(f, b, n)
-				ov.Media[f] = MediaView{Fetched: true, Status: r.Status, Body: r.Body, Err: r.Err,
-					Gen: r.Header.Get("X-Goog-Generation"), Metagen: r.Header.Get("X-Goog-Metageneration")}
+				r := c.GetMediaAE(f, b, n, ae)
+				ov.Media = append(ov.Media, MediaView{Fetched: true, Form: f, AcceptGzip: ae, Status: r.Status, Body: r.Body, Err: r.Err,
+					Encoding: r.Header.Get("Content-Encoding"), Gen: r.Header.Get("X-Goog-Generation"), Metagen: r.Header.Get("X-Goog-Metageneration")})
 			}
 		}
 	}
 	return d
 }
 
-// Canon renders the form-independent part of a dump (bucket existence, raw listing items, raw metadata, content
-// digest of the first fetched media form) so that two dumps of the same store can be compared for "nothing changed".
+// Canon renders the form-independent part of a dump (bucket existence, raw listing items, raw metadata, digest of the
+// entity - the body with the response's own Content-Encoding undone - of the first media GET) so that two dumps of the
+// same store can be compared for "nothing changed" although they used other URL forms / Accept-Encoding headers.
 // hostFrom/hostTo rewrite the server address in links (for comparing two instances); dropGen removes nothing:
 // generations are part of the state.
 func (d *StoreDump) Canon(hostFrom, hostTo string) map[string]string {
@@ -575,11 +623,12 @@ func (d *StoreDump) Canon(hostFrom, hostTo string) map[string]string {
 			if ov.MetaStatus != 200 {
 				s = fmt.Sprintf("meta=%d", ov.MetaStatus)
 			}
-			for f := 0; f < NForms; f++ {
-				mv := ov.Media[f]
+			for i := range ov.Media {
+				mv := &ov.Media[i]
 				if mv.Fetched {
 					if mv.Status == 200 {
-						s += fmt.Sprintf(" media=200 len=%d md5=%s gen=%s/%s", len(mv.Body), md5hex(mv.Body), mv.Gen, mv.Metagen)
+						ent := mv.Entity()
+						s += fmt.Sprintf(" media=200 len=%d md5=%s gen=%s/%s", len(ent), md5hex(ent), mv.Gen, mv.Metagen)
 					} else {
 						s += fmt.Sprintf(" media=%d", mv.Status)
 					}
